@@ -1,1 +1,9 @@
 import GN.Props.C13
+open GN.Props.C13
+#print axioms search_params_coherent
+#print axioms href_shows_the_query
+#print axioms host_is_hostname_port
+#print axioms default_port_hidden
+#print axioms port_is_a_number
+#print axioms escape_round_trip
+#print axioms query_escape_stable
